@@ -40,6 +40,7 @@ import (
 	"os"
 	"path/filepath"
 	"reflect"
+	"runtime/debug"
 	"sort"
 	"strconv"
 	"strings"
@@ -1283,10 +1284,25 @@ type zzC07Cfg struct {
 	Workers int   `json:"workers"`
 }
 
+// zzC07StateRow is a state of the spec with its observation table.  The
+// table stays encoded until it is used: thousands of decoded tables would
+// only be work for the garbage collector.
 type zzC07StateRow struct {
-	ID  int        `json:"id"`
-	St  zzC07State `json:"st"`
-	Obs []*zzC07Q  `json:"obs"`
+	ID  int             `json:"id"`
+	St  zzC07State      `json:"st"`
+	Obs json.RawMessage `json:"obs"`
+}
+
+func (row *zzC07StateRow) table() (qs []*zzC07Q) {
+	if len(row.Obs) == 0 {
+		return nil
+	}
+
+	if err := json.Unmarshal(row.Obs, &qs); err != nil {
+		panic(fmt.Errorf("observation table of state %d: %w", row.ID, err))
+	}
+
+	return qs
 }
 
 type zzC07Input struct {
@@ -1452,6 +1468,7 @@ type zzC07Harness struct {
 
 	steps, queries, bad, flaky, discards, walks, coveredN, transit, unobservable int
 	actCov                                                                        map[string]int
+	sigCount                                                                      map[string]int
 }
 
 // zzC07Run is one walk on one real object.
@@ -1595,9 +1612,42 @@ func (h *zzC07Harness) reportState(w *zzC07Walk, st zzC07Step, got *zzC07State) 
 	})
 }
 
+// zzC07Signature recognises the two symptoms that checks/c07.py classifies as
+// known findings (the check decides; this only saves repeating the costly
+// fresh-object reproduction thousands of times for the same symptom).
+func zzC07Signature(q *zzC07Q, r *zzC07Reply) (sig string) {
+	if r.St == "panic" && strings.Contains(r.Msg, "slice bounds out of range") {
+		return "panic"
+	}
+
+	if q.Class == "exact" && q.HasSig && r.St == "ok" && zzC07EqInts(r.Data, q.SigData) && r.Oldest == q.SigOldest {
+		return "skip"
+	}
+
+	return ""
+}
+
 // reportQuery re-runs the walk on a fresh object and asks the one query
-// again; only a reproduced disagreement is reported as bad.
-func (h *zzC07Harness) reportQuery(w *zzC07Walk, row *zzC07StateRow, q *zzC07Q, r *zzC07Reply) {
+// again; only a reproduced disagreement is reported as bad.  From the fourth
+// occurrence of a recognised symptom on, the request is repeated on the same
+// object instead and only counted.
+func (h *zzC07Harness) reportQuery(run *zzC07Run, row *zzC07StateRow, q *zzC07Q, r *zzC07Reply) {
+	w := run.asWalk()
+	if sig := zzC07Signature(q, r); sig != "" {
+		h.mu.Lock()
+		h.sigCount[sig]++
+		n := h.sigCount[sig]
+		h.mu.Unlock()
+		if n > 3 {
+			again := run.x.search(q)
+			if zzC07Signature(q, &again) != sig {
+				h.count("flaky")
+			}
+
+			return
+		}
+	}
+
 	r2, status2, _ := h.replayWalk(w)
 	defer r2.x.cleanup()
 
@@ -1631,7 +1681,7 @@ func (h *zzC07Harness) reportQuery(w *zzC07Walk, row *zzC07StateRow, q *zzC07Q, 
 func (r *zzC07Run) observe(lite bool) {
 	h := r.h
 	row := h.in.states[r.cur]
-	for qi, q := range row.Obs {
+	for qi, q := range row.table() {
 		if lite && qi > 1 {
 			break
 		}
@@ -1650,7 +1700,7 @@ func (r *zzC07Run) observe(lite bool) {
 			continue
 		}
 
-		h.reportQuery(r.asWalk(), row, q, &rep)
+		h.reportQuery(r, row, q, &rep)
 	}
 }
 
@@ -1968,6 +2018,7 @@ func TestZZVerifC07Walk(t *testing.T) {
 	h := &zzC07Harness{
 		t: t, in: in, out: &zzC07Out{w: w}, base: t.TempDir(), seed: zzSeed(),
 		dead: map[int]bool{}, rng: rand.New(rand.NewSource(zzSeed())), actCov: map[string]int{},
+		sigCount: map[string]int{},
 	}
 
 	// Explicit walks (replay of a stored disagreement).
@@ -1976,6 +2027,10 @@ func TestZZVerifC07Walk(t *testing.T) {
 	}
 
 	if len(in.groups) > 0 {
+		// Every search of the code under test allocates its 1.6 MB read
+		// buffer anew; collect less often.
+		defer debug.SetGCPercent(debug.SetGCPercent(100))
+
 		if in.cfg.WalkLen <= 0 {
 			in.cfg.WalkLen = 40
 		}
@@ -2001,7 +2056,7 @@ func TestZZVerifC07Walk(t *testing.T) {
 	h.out.put(map[string]any{
 		"kind": "summary", "walks": h.walks, "steps": h.steps, "queries": h.queries, "bad": h.bad,
 		"flaky": h.flaky, "discards": h.discards, "groups": len(in.groups), "covered": h.coveredN,
-		"transit": h.transit, "unobservable": h.unobservable, "by_act": h.actCov,
+		"transit": h.transit, "unobservable": h.unobservable, "by_act": h.actCov, "symptoms": h.sigCount,
 	})
 }
 
